@@ -23,7 +23,7 @@ ASSUMPTIONS = [
     "send time - queue time must lie in [0, timeout] (slack RES)",
 ]
 BUDGET = {"quick": {"examples": 8000, "shrink": 300}, "thorough": {"examples": 480000, "shrink": 2000}}
-DESTS = [None] + ADDRS
+DESTS = [None] + ADDRS + [("2001:db8::3", 30490, 0, 7)]   # the last one differs from ADDRS[1] in its scope id only
 
 when_st = st.one_of(
     st.tuples(st.just("d"), st.sampled_from([0.0, 0.001, 0.004, 0.005, 0.006, 0.02, 0.05, 0.3])).map(list),
@@ -38,7 +38,7 @@ def _step(draw):
     op = draw(st.sampled_from(["q"] * 8 + ["burst", "stop", "start"]))
     s = {"op": op, "when": draw(when_st)}
     if op in ("q", "burst"):
-        s["d"] = draw(st.integers(0, 3))
+        s["d"] = draw(st.integers(0, 4))
         s["kind"] = draw(st.sampled_from(["offer", "stop", "ack", "nack"]))
         s["re"] = draw(st.sampled_from([False, False, True]))   # same ids as the previous entry of that family (offer/stop, ack/nack)
         if op == "burst":
